@@ -12,26 +12,26 @@ CLAIMED = {
 
 CLAIMED.update({
  "C08": ("DESIGN.md 5/C08",
-   "CollectionChange.include, ReadRequest.Exclude executed symbolically for an UNINTERPRETED predicate P(id,value) (Ackermann-encoded), arbitrary ids/values and all change kinds: delivered edit equals the edit of the filtered collection, and include never alters the change it shares between subscribers. One step from an arbitrary view gives histories by induction. Real Pull goroutines: folded filtered stream == filtered List (both delivery modes), two subscribers with different predicates, include combined with a read mask that hides the predicate's field.",
+   "CollectionChange.include, ReadRequest.Exclude executed symbolically for an UNINTERPRETED predicate P(id,value) (Ackermann-encoded), arbitrary ids/values and all change kinds: delivered edit equals the edit of the filtered collection, and include never alters the change it shares between subscribers. One step from an arbitrary view gives histories by induction. Real Pull goroutines: folded filtered stream == filtered List (both delivery modes), two subscribers with different predicates, include combined with a read mask that hides the predicate's field; the booking server's booking_intersects filter (folded PullBookings == ListBookings for no / unbounded / bounded / half-bounded periods).",
    "Trusted: symgo, z3. The Pull goroutine around include and List's itemSlice are covered under C04/C01 harnesses when present; here the decision kernel.",
    "SSA symbolic execution + SMT with uninterpreted predicate, native replay"),
  "C09": ("DESIGN.md 5/C09",
-   "mergeChanges on arbitrary consecutive valid changes (2 and 3 in a row) of one id against an arbitrary view; the mergeCollectionExcess and DropExcess goroutines executed in the symbolic concurrency runtime between a producer (K=4, thorough 5, valid events over two ids, then a sentinel) and a consumer receiving at every possible pace: fold equivalence, old-value chaining, in-order subsequence ending in the most recent message; a never-receiving subscriber never blocks writers; a stalled backpressured subscriber makes Value.Set fail when its (modelled) 5 s timeout fires instead of hanging; two concurrent senders on a bus with an uncollected cancelled listener deliver every event exactly once to live listeners (race monitor on).",
+   "mergeChanges on arbitrary consecutive valid changes (2 and 3 in a row) of one id against an arbitrary view; the mergeCollectionExcess and DropExcess goroutines executed in the symbolic concurrency runtime between a producer (K=4, thorough 5, valid events over two ids, then a sentinel) and a consumer receiving at every possible pace: fold equivalence, old-value chaining, in-order subsequence ending in the most recent message; a never-receiving subscriber never blocks writers; a stalled backpressured subscriber makes Value.Set fail when its (modelled) 5 s timeout fires instead of hanging; two concurrent senders on a bus with an uncollected cancelled listener deliver every event exactly once to live listeners (race monitor on); a subscriber that has not taken its seed items yet blocks neither writers nor readers.",
    "Trusted: symgo concurrency runtime (timers fire only when nothing else can run), z3. Wall-clock latency is outside the claim: 'without waiting' is checked as 'never blocked'.",
    "SSA symbolic execution with symbolic scheduler + SMT, native replay"),
  "C16": ("DESIGN.md 5/C16",
-   "cmp combinators with arbitrary (symbolic) comparer answers; FloatValueApprox in IEEE float64 (reflexive, symmetric), DurationValueWithin/TimeValueWithin on full 64-bit nanosecond values against a no-overflow reference; own-kind-only clause and agreement of the default comparer with proto.Equal over the protobuf reflection model; resource-level de-duplication: Value.Pull / Collection.Pull with an exact, a NON-TRANSITIVE tolerance or no equivalence, with and without read mask, 2 (3) writes: delivered iff not equivalent to what the subscriber holds.",
+   "cmp combinators with arbitrary (symbolic) comparer answers; FloatValueApprox in IEEE float64 (reflexive, symmetric), DurationValueWithin/TimeValueWithin on full 64-bit nanosecond values against a no-overflow reference (instants within +-2^62 ns; symmetry and rejection also for instants up to ~584 years apart, where time.Sub saturates); own-kind-only clause and agreement of the default comparer with proto.Equal over the protobuf reflection model; resource-level de-duplication: Value.Pull / Collection.Pull with an exact, a NON-TRANSITIVE tolerance or no equivalence, with and without read mask, 2 (3) writes: delivered iff not equivalent to what the subscriber holds.",
    "Trusted: symgo + protobuf model over generated structs (validated by native replay), IEEE identities |x-y|=|y-x| and commutativity of math.Min/Max used for canonicalisation, durationpb/timestamppb ghost nanoseconds; instants within +-2^62 ns. Unknown fields outside the claim.",
    "SSA symbolic execution + SMT (FP and BV theories), native replay"),
  "C17": ("DESIGN.md 5/C17",
-   "group.Execute for every strategy x 0..3 (thorough 4) members x symbolic success flags x every completion order (scheduler choices explored exhaustively with sleep-set reduction): thresholds, result placement, error identity, no panic, no leaked goroutine; the light and on-off group servers' Get/Update with independently chosen read and write strategies (All/Most/Any), 2 (3) members with symbolic failures behind a fake client.",
+   "group.Execute for every strategy x 0..3 (thorough 4) members x symbolic success flags x every completion order (scheduler choices explored exhaustively with sleep-set reduction; 4 members exceed 1.5M paths and are outside the claim): thresholds, result placement, error identity, no panic, no leaked goroutine; the light and on-off group servers' Get/Update with independently chosen read and write strategies (All/Most/Any), 2 (3) members with symbolic failures behind a fake client, and a member that only returns on cancellation (the group call must return).",
    "Trusted: symgo concurrency runtime (goroutines, channels, WaitGroup, context), z3; race monitor on. Pull through the group servers outside.",
    "SSA symbolic execution with symbolic scheduler + SMT, native replay"),
 })
 
 CLAIMED.update({
  "C12": ("DESIGN.md 5/C12",
-   "Router registry: one arbitrary Add/Remove/Has/Get on an arbitrary registry (symbolic names, opaque clients) against a map model incl. change callbacks; Get with fallback/factory fakes answering arbitrarily; two concurrent first Gets and three concurrent Remove/Add of one name under every interleaving (results and change callbacks explainable by one order); replaceEmptyNameField over the protobuf reflection model.",
+   "Router registry: one arbitrary Add/Remove/Has/Get on an arbitrary registry (symbolic names, opaque clients) against a map model incl. change callbacks; Get with fallback/factory fakes answering arbitrarily; two concurrent first Gets and three concurrent Remove/Add of one name under every interleaving (results and change callbacks explainable by one order); replaceEmptyNameField over the protobuf reflection model (symbolic names, and concrete white-space names, which are names).",
    "Plus C12-C: on every run symgo enumerates every generated router type of pkg/trait/* from the current tree's go/types, GENERATES a fake client and a harness per router (65 routers, ~150 methods) and executes every unary and server-streaming forwarder with a symbolic request name: exactly one call on the named client, same method, same request object, response/error/header/messages/trailer pass through, caller errors cancel the forwarded request, unknown names give NotFound and touch no client, and an RPC of the service descriptor without a forwarder (only promoted from Unimplemented...Server) is a violation. Trusted: symgo (+ concurrency runtime, protobuf model), z3; native validation of the generated harnesses is sampled (6 packages per run, rotated by seed, plus every package with a counterexample). Outside: the *_wrap.pb.go wrappers and a byte-for-byte generator-freshness diff (its observable consequence - unrouted or misrouted RPCs - is what is checked).",
    "SSA symbolic execution + SMT, symbolic scheduler, native replay"),
  "C20": ("DESIGN.md 5/C20",
@@ -42,43 +42,43 @@ CLAIMED.update({
 
 CLAIMED.update({
  "C05": ("DESIGN.md 5/C05",
-   "masks.FieldUpdater Validate/Merge (with the real fmutils and fieldmaskpb code interpreted over the protobuf model) on symbolic stored/written messages for enumerated update / writable / reset masks: per-leaf frame and write conditions, rejection of invalid and read-only masks, empty-mask no-op. Groups: scalars (implicit and explicit presence), nested message leaves, parent+child and duplicate paths, sibling fields whose names are textual prefixes of each other; two-write sequences through Value/Collection with writable fields and per-write extra writable paths.",
+   "masks.FieldUpdater Validate/Merge (with the real fmutils and fieldmaskpb code interpreted over the protobuf model) on symbolic stored/written messages for enumerated update / writable / reset masks: per-leaf frame and write conditions, rejection of invalid and read-only masks, empty-mask no-op. Groups: scalars (implicit and explicit presence), nested message leaves, parent+child and duplicate paths, sibling fields whose names are textual prefixes of each other; repeated/map/oneof groups (frame, nil-mask replacement, FieldMask append semantics); two-write sequences through Value/Collection with writable fields and per-write extra writable paths; a masked write is stored exactly whatever equivalence the resource de-duplicates events with.",
    "Trusted: symgo + protobuf model over generated structs (validated per run against the real library on sampled paths), z3. Bound: masks of <=2 paths from the listed universe, nesting depth 2; oneof/repeated/map groups under update masks not yet encoded; through-resource repetition under C01.",
    "SSA symbolic execution + SMT over a protobuf model, native replay"),
  "C06": ("DESIGN.md 5/C06",
-   "masks.ResponseFilter Filter/FilterClone/Validate on symbolic messages (scalars, optional, nested, repeated scalar and message lists, map, oneof) for 13 read masks incl. nil/empty/parent+child/through-list, plus 7 corrupted masks: result equals the leaf-wise projection, argument never altered, clone shares nothing, Validate rejects, reads never panic. Resource level: Value Get/Pull, Collection Get/List/Pull (seed, UPDATE old+new, REMOVE old, ADD new) and PullID with 5 read masks against an independent projection, stored messages unchanged.",
+   "masks.ResponseFilter Filter/FilterClone/Validate on symbolic messages (scalars, optional, nested, repeated scalar and message lists, map, oneof) for 13 read masks incl. nil/empty/parent+child/through-list, plus 7 corrupted masks: result equals the leaf-wise projection, argument never altered, clone shares nothing, Validate rejects, reads never panic. Resource level: Value Get/Pull, Collection Get/List/Pull (seed, UPDATE old+new, REMOVE old, ADD new) and PullID with 5 read masks against an independent projection, stored messages unchanged; two backpressured subscribers with different masks each get their own projection.",
    "Trusted: as C05. Bound: list length <=2, one map entry, the listed masks.",
    "SSA symbolic execution + SMT over a protobuf model, native replay"),
 })
 
 CLAIMED.update({
  "C01": ("DESIGN.md 5/C01",
-   "One arbitrary Set on an arbitrary Value and one arbitrary Get/Add/Update/Delete on an arbitrary Collection (0..2 items, symbolic ids and bodies) with option subsets (update mask x {reset, expected value, expected check ok/fail, before/after interceptor, write time}; create-if-absent, expect-absent, allow-missing, generated ids) against an in-harness reference; failed calls change nothing; List sorted; generated ids non-empty/unused/reported once/usable; the same step under an arbitrary two-entry id interceptor (not assumed idempotent) behaves as the plain map at key I(id); generated ids under a canonicalising interceptor are usable; List under include x read mask equals filter-then-project of the reference. A single step from an arbitrary state gives sequences by induction.",
+   "One arbitrary Set on an arbitrary Value and one arbitrary Get/Add/Update/Delete on an arbitrary Collection (0..2 items, symbolic ids and bodies) with option subsets (update mask x {reset, expected value, expected check ok/fail, before/after interceptor, write time}; create-if-absent, expect-absent, allow-missing, generated ids) against an in-harness reference; failed calls change nothing; List sorted; generated ids non-empty/unused/reported once/usable; the same step under an arbitrary two-entry id interceptor (not assumed idempotent) behaves as the plain map at key I(id); generated ids under a canonicalising interceptor are usable; List under include x read mask equals filter-then-project of the reference; a write under a nested update mask clears/sets exactly the named leaf. A single step from an arbitrary state gives sequences by induction.",
    "Trusted: symgo + protobuf model + real masks/fmutils code, z3, ordinal ids, arbitrary rng bytes and clock. Bound quick: option subsets of size <=2 plus all six, 5 update masks, bodies with 2 implicit scalars + 1 optional; thorough: all 64 subsets, 3 items.",
    "SSA symbolic execution + SMT vs reference model, native replay"),
  "C04": ("DESIGN.md 5/C04",
    "Real Pull goroutines (bus, listener, forwarder) executed in the symbolic concurrency runtime with a consuming goroutine and one writer under every interleaving: seeds first/sorted/flagged/last-seed, exactly one event per successful write in write order with id, kind, old and new value and write time; none for failed writes; updates-only has no seed; no goroutine outlives the cancelled subscription.",
-   "Trusted: symgo concurrency runtime with sleep-set reduction (DRF between sync ops), protobuf model, z3. Bound: Value 2 writes, Collection 0..2 seed items + 1 write (with and without read mask); equivalence suppression (exact / tolerance / none, with read mask, 2-3 writes); a subscriber registering behind a cancelled, uncollected one during a publication gets every later write exactly once; event time for writes without WithWriteTime not asserted.",
+   "Trusted: symgo concurrency runtime with sleep-set reduction (DRF between sync ops), protobuf model, z3. Bound: Value 2 writes, Collection 0..2 seed items + 1 write (with and without read mask); equivalence suppression (exact / tolerance / none, with read mask, 2-3 writes); a subscriber registering behind a cancelled, uncollected one during a publication gets every later write exactly once; the seed of a later subscription carries the stored change time (WithWriteTime); event time for writes without WithWriteTime not asserted.",
    "SSA symbolic execution with symbolic scheduler + SMT, native replay"),
 })
 
 CLAIMED.update({
  "C02": ("DESIGN.md 5/C02",
-   "2 (thorough 3) concurrent writers on one Value/Collection executed in the symbolic concurrency runtime under every interleaving of their lock/unlock/channel operations with symbolic data: delta interceptors lose no increment, compare-and-set admits at most one winner, two Adds of one id never both succeed, two delta upserts of a possibly absent id lose nothing (interceptors use the in-place += idiom, so a write applied twice is visible), Delete-with-expectation vs Update only in legal orders; losers report one of the race statuses.",
+   "2 concurrent writers on one Value/Collection (3 symbolic-delta writers did not finish in 45 minutes and are outside the claim) executed in the symbolic concurrency runtime under every interleaving of their lock/unlock/channel operations with symbolic data: delta interceptors lose no increment, compare-and-set admits at most one winner, two Adds of one id never both succeed, two delta upserts of a possibly absent id lose nothing (interceptors use the in-place += idiom, so a write applied twice is visible), Delete-with-expectation vs Update only in legal orders; losers report one of the race statuses.",
    "Trusted: symgo concurrency runtime (RWMutex without writer preference, sleep-set reduction, DRF between sync ops), protobuf model, z3. Counterexamples are confirmed natively by stress replay (up to 400 runs) because the native scheduler cannot be forced without hooks.",
    "SSA symbolic execution with symbolic scheduler + SMT, native stress replay"),
 })
 
 CLAIMED.update({
  "C10": ("DESIGN.md 5/C10",
-   "Bus.Send/Listen/collect, listener.send/stop, DropExcess, mergeCollectionExcess and the Value/Collection/PullID forwarders executed as goroutines with a cancel issued by a separate goroutine (i.e. at every scheduling point), writers active, consumers that stop receiving and then cancel: no panic (send on / close of closed channel), no deadlock, channel observed closed, every goroutine ends, live listeners get every event exactly once in order, PullID ends when its item is removed.",
+   "Bus.Send/Listen/collect, listener.send/stop, DropExcess, mergeCollectionExcess and the Value/Collection/PullID forwarders executed as goroutines with a cancel issued by a separate goroutine (i.e. at every scheduling point), writers active, consumers that stop receiving and then cancel: no panic (send on / close of closed channel), no deadlock, channel observed closed, every goroutine ends, live listeners get every event exactly once in order, PullID ends when its item is removed; a subscription opened while a writer is active never deadlocks with it (a recursive read lock blocks behind a waiting writer in the model, as in Go).",
    "Trusted: symgo concurrency runtime with sleep sets, z3. Bound: <=2 (thorough 3) listeners, <=2 sends, 1 cancel; Value: 1-2 writes, consumer stopping after 0-2 events.",
    "SSA symbolic execution with symbolic scheduler + SMT, native stress replay"),
 })
 
 CLAIMED.update({
  "C03": ("DESIGN.md 5/C03",
-   "Value.Pull / Collection.Pull subscriptions opened at every possible moment relative to concurrent writers (symbolic scheduler), reader keeps receiving; quiescence by a sentinel write: last delivered value == Get (Value, backpressure, 1 writer x 2 writes and 2 writers x 1 write), lossy Value delivery eventually holds the final value, folded Collection view == List (1 writer, 3-5 operations incl. delete/add/delete of one id, both delivery modes); a Delete and an Add of one id by two writers (no event overtakes a later commit); a subscription opened exactly between commit and publication of an Add (window forced through a hook).",
+   "Value.Pull / Collection.Pull subscriptions opened at every possible moment relative to concurrent writers (symbolic scheduler), reader keeps receiving; quiescence by a sentinel write: last delivered value == Get (Value, backpressure, 1 writer x 2 writes and 2 writers x 1 write), lossy Value delivery eventually holds the final value, folded Collection view == List (1 writer, 3-5 operations incl. delete/add/delete of one id, both delivery modes); a Delete and an Add of one id by two writers (no event overtakes a later commit); a Value moved away from and back to its seeded value under an equivalence; a subscription opened exactly between commit and publication of an Add (window forced through a hook).",
    "Trusted: symgo concurrency runtime with sleep sets, z3. The publish-after-unlock defects are recorded as KF-C03-1 (two writers, Value) and KF-C03-2 (one writer, Collection, lossy subscriber) and any other violation still alarms. Bound: <=2 writers; PullID, read masks and updates-only are outside.",
    "SSA symbolic execution with symbolic scheduler + SMT, native stress replay"),
 })
@@ -92,21 +92,21 @@ CLAIMED.update({
 
 CLAIMED.update({
  "C19": ("DESIGN.md 5/C19",
-   "electricpb.Model: one arbitrary operation (CreateMode, AddMode, UpdateMode with mask nil/normal/title, DeleteMode with/without allow-missing, SetActiveMode, ChangeActiveMode, ChangeToNormalMode) with symbolic arguments from an arbitrary invariant-satisfying state (0..3 modes, thorough 4; arbitrary Normal flags and active mode, whose stored copy may carry a stale Normal flag): invariants re-established, documented outcomes (NotFound, allow-missing, start-time stamping with the model clock, clear selects normal). Induction gives every sequence; four pairs of conflicting operations under every interleaving for the concurrent clause.",
+   "electricpb.Model: one arbitrary operation (CreateMode, AddMode, UpdateMode with mask nil/normal/title, DeleteMode with/without allow-missing, SetActiveMode, ChangeActiveMode, ChangeToNormalMode) with symbolic arguments from an arbitrary invariant-satisfying state (0..3 modes, thorough 4; arbitrary Normal flags and active mode, whose stored copy may carry a stale Normal flag): invariants re-established, documented outcomes (NotFound, allow-missing, start-time stamping with the model clock, clear selects normal). Induction gives every sequence; four pairs of conflicting operations under every interleaving for the concurrent clause, and two concurrent allow-missing deletes through the MemorySettings server.",
    "Trusted: symgo, protobuf model, real resource layer, z3. Mode ids are fixed distinct ordinals (they matter only up to equality/order); the ElectricApi/MemorySettingsApi server wrappers are thin and not separately encoded.",
    "SSA symbolic execution + SMT, inductive single step, symbolic scheduler, native replay"),
 })
 
 CLAIMED.update({
  "C07": ("DESIGN.md 5/C07",
-   "Heap-level isolation on the engine's own store: every message handed out (Get/List/Set/Update/Add/Delete results, model snapshots) is frozen - any later store into a cell or map reachable from it is a violation - and the store must be unaffected when the caller scribbles over a message after writing it; over 3-4 operation sequences on Value, Collection, parent (AddChildTrait/RemoveChildTrait incl. spare-capacity slices), metadata (UpdateTraitMetadata/MergeMetadata), the enter/leave Pull seed, openclose PullPositions under read masks (and GetPositions/GetPosition under masks below states) and the electric model's modes (every mode read frozen across two arbitrary later operations); plus one GENERATED harness per write/read/pull method triple of every trait Model found in the current tree (14 triples in 13 packages): populated message written, scribbled over, read, subscribed, read under two masks, written again - everything that crossed the API frozen and deep-compared.",
+   "Heap-level isolation on the engine's own store: every message handed out (Get/List/Set/Update/Add/Delete results, model snapshots) is frozen - any later store into a cell or map reachable from it is a violation - and the store must be unaffected when the caller scribbles over a message after writing it; over 3-4 operation sequences on Value, Collection, parent (AddChildTrait/RemoveChildTrait incl. spare-capacity slices), metadata (UpdateTraitMetadata/MergeMetadata), the enter/leave Pull seed, openclose PullPositions under read masks (and GetPositions/GetPosition under masks below states), the booking server's check-in/out with a caller-supplied timestamp and the electric model's modes (every mode read frozen across two arbitrary later operations); plus one GENERATED harness per write/read/pull method triple of every trait Model found in the current tree (14 triples in 13 packages): populated message written, scribbled over, read, subscribed, read under two masks, written again - everything that crossed the API frozen and deep-compared.",
    "Trusted: symgo heap model (slice capacity growth mirrors the Go runtime's size classes), protobuf model, z3. Natively reproduced by deep-copy-and-compare. Collection-shaped trait models (hail, publication, consumables, stock, bookings) are driven through one shared isolation driver with hand-written adapters; wastepb is not driven; time.AfterFunc callbacks never run.",
    "SSA symbolic execution with heap freeze monitor + SMT, native replay"),
 })
 
 CLAIMED.update({
  "C11": ("DESIGN.md 5/C11",
-   "Happens-before race monitor inside the symbolic concurrency runtime: vector clocks per goroutine and per synchronisation object (mutex/RWMutex, channel, WaitGroup, context, go), an access history per heap cell and map touched by the interpreted code; two accesses to one cell, one a write, unordered by happens-before on a feasible schedule are reported with both sites. Workloads: Value writer/reader/subscriber with interceptors reading their arguments, Collection generated-id adds, update/delete/get, pull readers, two senders on a bus with an uncollected listener, router registry, parent and electric models (readers clone what they read so every field is touched); plus one GENERATED writer/reader/subscriber workload per trait Model method triple found in the current tree.",
+   "Happens-before race monitor inside the symbolic concurrency runtime: vector clocks per goroutine and per synchronisation object (mutex/RWMutex, channel, WaitGroup, context, go), an access history per heap cell and map touched by the interpreted code; two accesses to one cell, one a write, unordered by happens-before on a feasible schedule are reported with both sites. Workloads: Value writer/reader/subscriber with interceptors reading their arguments, Collection generated-id adds, update/delete/get, pull readers, two senders on a bus with an uncollected listener, a conditional Delete racing an Update, router registry, parent and electric models (readers clone what they read so every field is touched); plus one GENERATED writer/reader/subscriber workload per trait Model method triple found in the current tree.",
    "Trusted: symgo runtime; scheduler switches only at synchronisation operations (complete for the bound by the DRF argument). Native confirmation by go test -race naming the same function. Outside: pkg/wrap streams, group servers, anything inside stubbed libraries, workloads beyond 3-4 goroutines.",
    "SSA symbolic execution with vector-clock race monitor + SMT, native replay under the Go race detector"),
 })
